@@ -7,5 +7,6 @@ CONSTANTS
   FirstCap = 0
   Roots = {1, 2}
   Dev = "UnboundedTiebreak"
+  Tolerant = FALSE
 INVARIANTS LTypeOK NotOverdue
 CHECK_DEADLOCK FALSE
